@@ -144,6 +144,12 @@ class RepoInterp:
     # ---- hooks ---------------------------------------------------------------
     def on_name(self, name: str, st: State) -> Optional[V]:
         mod = self.cur_fi.module
+        if name in mod.constants and self.heap and _is_mutable_ctor(mod.constants[name]):
+            # a module-level mutable object (a cache, a registry): one object per run, shared by every call of the run
+            key = f"__global__:{mod.name}.{name}"
+            if key not in st.env:
+                st.env[key] = self.interp.eval(mod.constants[name], st)
+            return st.env[key]
         if name in mod.constants:
             return fold_const(self.repo, mod, name)
         if name in mod.imports:
@@ -152,6 +158,9 @@ class RepoInterp:
             return S("class:" + mod.name + "." + name)
         if name in mod.functions:
             return S("func:" + mod.name + "." + name)
+        import builtins as _b
+        if hasattr(_b, name) and name not in ("True", "False", "None"):
+            return S("builtin:" + name)
         return None
 
     def on_attr(self, obj: V, attr: str, node: ast.AST, st: State) -> Optional[V]:
@@ -180,6 +189,10 @@ class RepoInterp:
                         return self.inline_call(m, ast.Call(func=ast.Name(id=attr, ctx=ast.Load()), args=[], keywords=[]), obj, [], {}, st)
                     finally:
                         self.self_class = saved_c
+        if isinstance(obj, S) and obj.name == "mod:inspect" and attr.startswith("CO_"):
+            import inspect as _i
+            if hasattr(_i, attr):
+                return K(getattr(_i, attr))  # platform constant
         if isinstance(obj, S) and obj.name.startswith("mod:"):
             return S(obj.name + "." + attr)
         if isinstance(obj, S) and obj.name.startswith("class:"):
@@ -369,6 +382,9 @@ class RepoInterp:
         sub.assume = st.assume
         sub.heap = st.heap
         sub._next = st._next
+        for gk, gv in st.env.items():
+            if gk.startswith("__global__:"):
+                sub.env[gk] = gv
         is_method = callee.cls is not None and params and params[0] in ("self", "cls")
         if is_method:
             sub.env[params[0]] = fval if fval is not None else S("self")
@@ -391,6 +407,10 @@ class RepoInterp:
         finally:
             self.depth -= 1
             self.cur_fi = saved
+        for o in outs:
+            for gk, gv in o.env.items():
+                if gk.startswith("__global__:") and gk not in st.env:
+                    st.env[gk] = gv
         vals = []
         for o in outs:
             if o.term is not None and o.term[0] == "return":
@@ -409,9 +429,22 @@ class RepoInterp:
         return vals[0] if vals else U("no outcome")
 
     # ---- driver ----------------------------------------------------------------
-    def run(self, env: Dict[str, V], body: Optional[List[ast.stmt]] = None) -> List[State]:
+    def run(self, env: Dict[str, V], body: Optional[List[ast.stmt]] = None, carry: Optional[State] = None) -> List[State]:
+        """carry: a final state of an earlier run of the same scenario family; its heap and module-level objects
+        are kept (calls in one process share module state)."""
         st = State()
+        if carry is not None:
+            st.heap = carry.heap
+            st._next = carry._next
+            for k, v in carry.env.items():
+                if k.startswith("__global__:"):
+                    st.env[k] = v
         st.env.update(env)
+        if body is None:
+            # parameters the scenario does not bind take their declared default
+            for p, d in self.fi.defaults().items():
+                if p not in st.env:
+                    st.env[p] = self.interp.eval(d, st)
         stmts = body if body is not None else self.fi.node.body  # type: ignore[attr-defined]
         return self.interp.run(stmts, st)
 
@@ -514,6 +547,17 @@ def platform_call(fname: Optional[str], fval: Optional[V], call: ast.Call, args:
         if isinstance(r, list):
             r = tuple(r)
         return K(r)
+    if fname == "bool" and len(args) == 1 and isinstance(args[0], K):
+        return K(bool(args[0].v))
+    if fname in ("int", "str") and len(args) == 1 and isinstance(args[0], K) and isinstance(args[0].v, (int, str, bool)):
+        try:
+            return K(int(args[0].v) if fname == "int" else str(args[0].v))
+        except Exception:
+            return None
+    if fname == "id" and len(args) == 1:
+        return R("id", of=args[0])
+    if fname is not None and fname.startswith("inspect.CO_"):
+        return None
     if fname == "len" and len(args) == 1:
         a = args[0]
         if isinstance(a, K) and isinstance(a.v, (bytes, str, tuple, frozenset)):
@@ -526,6 +570,13 @@ def platform_call(fname: Optional[str], fval: Optional[V], call: ast.Call, args:
         if isinstance(items, (tuple, frozenset)):
             return K(frozenset(items)) if fname != "tuple" else K(tuple(items))
     return None
+
+
+def _is_mutable_ctor(e: ast.AST) -> bool:
+    if isinstance(e, (ast.Dict, ast.List, ast.Set)):
+        return not (isinstance(e, ast.Dict) and e.keys) and not (isinstance(e, (ast.List, ast.Set)) and e.elts)
+    return isinstance(e, ast.Call) and (dotted(e.func) or "").split(".")[-1] in ("dict", "list", "set", "defaultdict", "OrderedDict", "WeakKeyDictionary", "WeakValueDictionary", "Counter") and not e.args and not e.keywords or \
+        (isinstance(e, ast.Call) and (dotted(e.func) or "").split(".")[-1] == "defaultdict")
 
 
 _STR_FOLD = {"startswith", "endswith", "split", "rsplit", "partition", "rpartition", "lower", "upper", "strip",
